@@ -414,11 +414,34 @@ def r3_6(repo: Repo) -> RuleResult:
     return rr
 
 
-RULES = [r3_1, r3_2, r3_3, r3_4, r3_5, r3_6]
+def r3_7(repo: Repo) -> RuleResult:
+    """Fitted kernel parameters (the timed vectorizer's mean time gap) are part of the definition the matrix must
+    equal; they must be computed from the data of *this* fit, so an accumulator attribute is re-initialised in the
+    function that accumulates it (the rule is R13.5, restricted to the co-occurrence family)."""
+    from .c13 import r13_5
+
+    rr = r13_5(repo)
+    rr.rule, rr.title, rr.floor = "R3.7", "fitted kernel parameters of the co-occurrence vectorizers are recomputed from scratch by every fit", 1
+    rr.instances = [i for i in rr.instances if "cooccurrence" in i.file or "cooccurence" in i.file]
+    for i in rr.instances:
+        i.rule = "R3.7"
+    # anchor: the fitted kernel parameter must still be written by the timed vectorizer's parameter step
+    from ..model import is_self_attr
+
+    f = repo.func(TIMED, "TimedTokenCooccurrenceVectorizer._set_additional_params")
+    writes = [n for n in walk_no_nested(f.node) if (isinstance(n, ast.Assign) and any(is_self_attr(t) for t in n.targets))
+              or (isinstance(n, ast.AugAssign) and is_self_attr(n.target))]
+    if not writes:
+        raise AnalysisError("R3.7: _set_additional_params of the timed vectorizer no longer assigns a fitted kernel parameter")
+    rr.ok(f, "fitted kernel parameter", "written by %d statement(s) of the parameter step" % len(writes), writes[0].lineno)
+    return rr
+
+
+RULES = [r3_1, r3_2, r3_3, r3_4, r3_5, r3_6, r3_7]
 CLAIM = (
     "R3.1 precision flow: no absolute timestamp is narrowed to float32 before the time difference is formed; R3.2 the three tables "
     "(orientation -> reversal flags, orientation -> column prefixes, reversal flag -> before/after in window_at_index) agree; R3.3 "
     "positional kernel / window argument packing matches the parameter order of every function in each class's registry; R3.4 "
-    "window slices have non-negative lower bounds (clamp or range proof); R3.5 window_at_index takes exactly window_size neighbours adjacent to the index on the chosen side, nearest first; R3.6 the stored weight and the window total it is divided by both derive from the mix-weighted kernels (backward slices), with a zero-total guard."
+    "window slices have non-negative lower bounds (clamp or range proof); R3.5 window_at_index takes exactly window_size neighbours adjacent to the index on the chosen side, nearest first; R3.6 the stored weight and the window total it is divided by both derive from the mix-weighted kernels (backward slices), with a zero-total guard; R3.7 kernel parameters fitted from the data (the mean time gap) are accumulated in an attribute that the same function re-initialises on every path."
 )
 NOT_DECIDED = "the numerical definition itself: kernel formulas, per-occurrence sums, window normalisation totals, the transpose identity."
